@@ -743,6 +743,7 @@ fn svm_hyperplane(r: &mut Runner) {
     r.inst("f64/Linear", |o| go::<f64>(o, SeparatingHyperplane::Linear(ndarray::array![0.1 + 0.2, -0.0, 1e-310])));
     r.inst("f64/WeightedCombination", |o| go::<f64>(o, SeparatingHyperplane::WeightedCombination(blobs::<f64>(5, 2, 2, 3).0)));
     r.inst("f32/Linear", |o| go::<f32>(o, SeparatingHyperplane::Linear(ndarray::array![0.7f32, -3.0])));
+    r.inst("f64/WeightedCombination(column-major 6x5)", |o| go::<f64>(o, SeparatingHyperplane::WeightedCombination(to_f_order(&blobs::<f64>(6, 5, 2, 3).0))));
     r.inst("f32/WeightedCombination", |o| go::<f32>(o, SeparatingHyperplane::WeightedCombination(blobs::<f32>(4, 3, 2, 3).0)));
 }
 
